@@ -50,7 +50,21 @@ func (e *Env) objConverter(recvT, name, fwd, back string) {
 	param := info.Defs[fd.Type.Params.List[0].Names[0]]
 	var outObj types.Object
 	allocPos, fwdPos, backPos := token.NoPos, token.NoPos, token.NoPos
-	for _, st := range fd.Body.List {
+	// statement-level calls to small helpers (linkObject(o, out)) are looked through
+	body := c.FlattenBody(fd.Body.List)
+	defer func() { c.Subst = nil }()
+	isRoot := func(x ast.Expr, root types.Object) bool {
+		if root == nil {
+			return false
+		}
+		p, ok := c.Path(x, root)
+		return ok && p == ""
+	}
+	order := 0
+	pos2order := map[token.Pos]int{}
+	for _, st := range body {
+		order++
+		pos2order[st.Pos()] = order
 		as, ok := st.(*ast.AssignStmt)
 		if !ok || len(as.Lhs) != 1 || len(as.Rhs) != 1 {
 			continue
@@ -58,7 +72,7 @@ func (e *Env) objConverter(recvT, name, fwd, back string) {
 		if as.Tok == token.DEFINE {
 			if _, isAlloc := c.AllocOf(as.Rhs[0]); isAlloc {
 				outObj = info.Defs[as.Lhs[0].(*ast.Ident)]
-				allocPos = as.Pos()
+				allocPos = token.Pos(order)
 			}
 			continue
 		}
@@ -70,40 +84,39 @@ func (e *Env) objConverter(recvT, name, fwd, back string) {
 		if !ok {
 			continue
 		}
-		kid, ok1 := ix.Index.(*ast.Ident)
-		vid, ok2 := as.Rhs[0].(*ast.Ident)
-		if !ok1 || !ok2 {
-			continue
+		if mp == fwd && isRoot(ix.Index, param) && isRoot(as.Rhs[0], outObj) {
+			fwdPos = token.Pos(order)
 		}
-		if mp == fwd && c.ObjOf(kid) == param && c.ObjOf(vid) == outObj && outObj != nil {
-			fwdPos = as.Pos()
-		}
-		if mp == back && c.ObjOf(kid) == outObj && c.ObjOf(vid) == param && outObj != nil {
-			backPos = as.Pos()
+		if mp == back && isRoot(ix.Index, outObj) && isRoot(as.Rhs[0], param) {
+			backPos = token.Pos(order)
 		}
 	}
 	pos := e.Prog.Pos(fd.Pos())
 	e.Run.Check("R-MAPS", name+": new object registered in both maps", pos, allocPos.IsValid() && fwdPos > allocPos && backPos > allocPos,
 		fmt.Sprintf("after out := &T{} the function must store %s[param] = out and %s[out] = param", fwd, back))
-	// first recursive conversion
+	// first recursive conversion (statement order in the flattened body)
 	first := token.NoPos
-	ast.Inspect(fd.Body, func(n ast.Node) bool {
-		call, ok := n.(*ast.CallExpr)
-		if !ok {
-			return true
-		}
-		fn := calleeFunc(info, call)
-		if fn == nil || fn.Pkg() == nil || fn.Pkg().Path() != load.PkgDecorator {
-			return true
-		}
-		switch fn.Name() {
-		case "decorateNode", "decorateObject", "decorateScope", "restoreNode", "restoreObject", "restoreScope":
-			if first == token.NoPos || call.Pos() < first {
-				first = call.Pos()
+	for i, st := range body {
+		found := false
+		ast.Inspect(st, func(n ast.Node) bool {
+			call, ok := n.(*ast.CallExpr)
+			if !ok {
+				return true
 			}
+			fn := calleeFunc(info, call)
+			if fn == nil || fn.Pkg() == nil || fn.Pkg().Path() != load.PkgDecorator {
+				return true
+			}
+			switch fn.Name() {
+			case "decorateNode", "decorateObject", "decorateScope", "restoreNode", "restoreObject", "restoreScope":
+				found = true
+			}
+			return true
+		})
+		if found && first == token.NoPos {
+			first = token.Pos(i + 1)
 		}
-		return true
-	})
+	}
 	e.Run.Check("R-MAPS", name+": registered before converting what it refers to", pos, first == token.NoPos || (fwdPos.IsValid() && backPos.IsValid() && fwdPos < first && backPos < first),
 		"the object graph is cyclic (object → declaring node → identifier → object): the memo entry must exist before Decl/Data/Outer/Objects are converted, else the conversion does not terminate or duplicates objects")
 }
